@@ -29,8 +29,10 @@ def random_pos(st, p, rng, allow_bad=False):
     r = rng.random()
     if r < 0.25 or not kids:
         return rng.choice([POS_NONE, {"t": "true", "v": 0}, {"t": "false", "v": 0}, {"t": "idx", "v": 0}])
-    if r < 0.55:
+    if r < 0.52:
         return {"t": "idx", "v": rng.randrange(0, len(kids) + 1)}
+    if r < 0.55:
+        return {"t": "idx", "v": len(kids) + rng.randint(1, 2)}   # beyond the end: appended or refused-unchanged
     if r < 0.95 or not allow_bad:
         return {"t": "node", "v": rng.choice(kids)}
     others = [i for i in range(1, st["n"] + 1) if st["par"][i - 1] != -1 and i not in kids]
